@@ -237,7 +237,7 @@ E1_ASSUMPTIONS = [
     "engine models SEM_polars (Polars 1.44 logical-plan JSON) and SEM_sqlite (SQLite 3.40 SQL text) are hand-written; they are validated on every run against the real engines on random concrete tables (coverage.models_validated) and every counterexample is replayed on the real engines before it is reported",
     "REF (pv/ref.py) is the reference reading of the documentation (DESIGN.md Appendix A); DEF side conditions it emits are assumed in every query (coverage.samples[*].def)",
     "program quantifier: the template corpus (bounded enumeration); value quantifier: decided by z3 within coverage.bounds",
-    "z3 5.1 decides every obligation; for a seed-rotated tenth of the templates (a third in the thorough tier) every unsat verdict is re-decided by the cvc5 1.0.3 binary and z3 4.8.12 from an SMT-LIB2 dump (coverage.cross_solver_verdicts) - a 'sat' from either makes the obligation inconclusive; unknown/timeouts are inconclusive, never discharged",
+    "z3 5.1 decides every obligation; for a seed-rotated tenth of the templates (a fifth in the thorough tier) every unsat verdict is re-decided by the cvc5 1.0.3 binary and z3 4.8.12 from an SMT-LIB2 dump (coverage.cross_solver_verdicts) - a 'sat' from either makes the obligation inconclusive; unknown/timeouts are inconclusive, never discharged",
     "integers are mathematical (overflow outside the claim); Float64 modelled as exact rationals on quarter-dyadic inputs (DESIGN.md 4.4)",
 ]
 
